@@ -644,7 +644,9 @@ impl Printer {
         }
         for f in &p.funcs {
             if f.proto {
-                let h = Self::func_header(&Func { inline: false, ..f.clone() }, self.plain_char_signed);
+                // (the prototype of an interrupt handler carries the keyword or not — decided by the
+                // name, so that the text is a function of the program; the definition always has it)
+                let h = Self::func_header(&Func { inline: false, interrupt: f.interrupt && f.name.len() % 2 == 1, ..f.clone() }, self.plain_char_signed);
                 self.line(&format!("{};", h));
             }
         }
